@@ -136,6 +136,24 @@ func astTableOK(n ast.Node) string {
 		case *ast.SubscriptSpecifierKeyword:
 			rec(ix.Expr)
 		}
+	case *ast.CaseExpr: // an atom whose parts are delimited by keywords: any level anywhere
+		if n.Expr != nil {
+			rec(n.Expr)
+		}
+		for _, w := range n.Whens {
+			rec(w.Cond, w.Then)
+		}
+		if n.Else != nil {
+			rec(n.Else.Expr)
+		}
+	case *ast.IfExpr:
+		rec(n.Expr, n.TrueResult, n.ElseResult)
+	case *ast.ArrayLiteral:
+		for _, x := range n.Values {
+			rec(x)
+		}
+	case *ast.CastExpr:
+		rec(n.Expr)
 	}
 	return bad
 }
@@ -204,6 +222,31 @@ func astCanon(n ast.Node, parens *int) string {
 		case *ast.SubscriptSpecifierKeyword:
 			return "(idx:" + string(ix.Keyword) + " " + c(n.Expr) + " " + c(ix.Expr) + ")"
 		}
+	case *ast.CaseExpr:
+		id, kids := "case:", ""
+		if n.Expr != nil {
+			id += "o"
+			kids += " " + c(n.Expr)
+		}
+		for _, w := range n.Whens {
+			id += "w"
+			kids += " " + c(w.Cond) + " " + c(w.Then)
+		}
+		if n.Else != nil {
+			id += "e"
+			kids += " " + c(n.Else.Expr)
+		}
+		return "(" + id + kids + ")"
+	case *ast.IfExpr:
+		return "(if " + c(n.Expr) + " " + c(n.TrueResult) + " " + c(n.ElseResult) + ")"
+	case *ast.CastExpr:
+		return "(cast:" + n.Type.SQL() + " " + c(n.Expr) + ")"
+	case *ast.ArrayLiteral:
+		s := fmt.Sprintf("(arr%d", len(n.Values))
+		for _, x := range n.Values {
+			s += " " + c(x)
+		}
+		return s + ")"
 	}
 	return fmt.Sprintf("?%T", n)
 }
@@ -238,7 +281,7 @@ func c07ParenCheck(src string, e ast.Node) string {
 		}
 		inner, ok := exprLexYield(src[lp+1 : rp])
 		want := strings.Join(exprYield(p.Expr), " ") + " <eof>:-"
-		if !ok || inner != want {
+		if !ok || c07Norm(inner) != c07Norm(want) {
 			bad = fmt.Sprintf("ParenExpr at %d..%d does not wrap exactly its operand: between the parentheses %q, operand %q", lp, rp, inner, want)
 			return false
 		}
@@ -287,6 +330,20 @@ func c07Norm(keys string) string {
 				switch u := strings.ToUpper(string(b)); u {
 				case "OFFSET", "ORDINAL", "SAFE_OFFSET", "SAFE_ORDINAL":
 					ks[i] = "<ident>:" + hx(u)
+				}
+			}
+		}
+	}
+	// a scalar type name right after AS (CAST(x AS int64)) is compared in its canonical spelling too, unless a "." follows
+	// (then it is the first component of a named type)
+	for i := 1; i < len(ks); i++ {
+		if ks[i-1] == "AS:-" && strings.HasPrefix(ks[i], "<ident>:") && !(i+1 < len(ks) && ks[i+1] == ".:-") {
+			if b, ok := unhex(strings.TrimPrefix(ks[i], "<ident>:")); ok {
+				u := strings.ToUpper(string(b))
+				for _, n := range xSimpleTypes {
+					if u == n {
+						ks[i] = "<ident>:" + hx(u)
+					}
 				}
 			}
 		}
@@ -384,7 +441,7 @@ func c07NonAssoc(res *propResult) {
 }
 
 func propC07(o *propOpts) *propResult {
-	res := newResult("inputs: replay/hints; every abstract tree over the full operator set (21 binary spellings, 4 prefix, 14 postfix/ternary forms) with up to 2 (quick) / 3 (thorough) operator occurrences and three atom rotations, every tree over one representative per precedence level and form with 3 / 4 occurrences, plain subscripts a[t] whose expression t has a column spelled offset / ORDINAL / safe_offset / Safe_Ordinal as its leftmost leaf (t with up to 1 / 2 occurrences over the full set and each word, 2 / 3 occurrences over the representative set), each printed minimally parenthesised by the GoogleSQL table and fully parenthesised; all ordered pairs of comparison-family operators without parentheses; non-trivial = at least 2 operator occurrences; distinct by printed text")
+	res := newResult("inputs: replay/hints; every abstract tree over the full operator set (21 binary spellings, 4 prefix, 14 postfix/ternary forms, 4 CASE shapes, IF, array literals with 1-3 elements and CAST to four named types as compound atoms) with up to 2 (quick) / 3 (thorough) operator occurrences and three atom rotations, every tree over one representative per precedence level and form with 3 / 4 occurrences, plain subscripts a[t] whose expression t has a column spelled offset / ORDINAL / safe_offset / Safe_Ordinal as its leftmost leaf (t with up to 1 / 2 occurrences over the full set and each word, 2 / 3 occurrences over the representative set), each printed minimally parenthesised by the GoogleSQL table and fully parenthesised; all ordered pairs of comparison-family operators without parentheses; non-trivial = at least 2 operator occurrences; distinct by printed text")
 	if o.single != nil {
 		b, _ := unhex(o.single.Input)
 		src := string(b)
